@@ -37,6 +37,9 @@ func (api *PcApi) HandleLogsStream(c *gin.Context) {
 	}
 	for _, procName := range procNames {
 		logChan := make(chan LogMessage, 256)
+		// closed when handleLog returns: from then on nobody reads logChan, and a sender must not
+		// wait for room in it (it is called with the log buffer's mutex held)
+		gone := make(chan struct{})
 		chanCloseMtx := &sync.Mutex{}
 		isChannelClosed := false
 		connector := pclog.NewConnector(
@@ -46,7 +49,11 @@ func (api *PcApi) HandleLogsStream(c *gin.Context) {
 						Message:     message,
 						ProcessName: procName,
 					}
-					logChan <- msg
+					select {
+					case logChan <- msg:
+					case <-gone:
+						return
+					}
 				}
 				if !follow {
 					chanCloseMtx.Lock()
@@ -65,22 +72,32 @@ func (api *PcApi) HandleLogsStream(c *gin.Context) {
 				if isChannelClosed {
 					return 0, nil
 				}
-				logChan <- msg
+				select {
+				case logChan <- msg:
+				case <-gone:
+					return 0, nil
+				}
 				return len(message), nil
 			},
 			endOffset)
-		go api.handleLog(ws, procName, connector, logChan, done)
+		go api.handleLog(ws, procName, connector, logChan, done, gone)
 
 		err = api.project.GetLogsAndSubscribe(procName, connector)
 		if err != nil {
 			log.Err(err).Msg("Failed to subscribe to logger")
 			return
 		}
+		select {
+		case <-gone:
+			// the follower left before it was subscribed
+			_ = api.project.UnSubscribeLogger(procName, connector)
+		default:
+		}
 	}
 
 }
 
-func (api *PcApi) handleLog(ws *websocket.Conn, procName string, connector *pclog.Connector, logChan chan LogMessage, done chan struct{}) {
+func (api *PcApi) handleLog(ws *websocket.Conn, procName string, connector *pclog.Connector, logChan chan LogMessage, done chan struct{}, gone chan struct{}) {
 	defer func(project app.IProject, name string, observer pclog.LogObserver) {
 		err := project.UnSubscribeLogger(name, observer)
 		if err != nil {
@@ -88,6 +105,7 @@ func (api *PcApi) handleLog(ws *websocket.Conn, procName string, connector *pclo
 		}
 	}(api.project, procName, connector)
 	defer ws.Close()
+	defer close(gone)
 	for {
 		select {
 		case msg, open := <-logChan:
@@ -106,7 +124,6 @@ func (api *PcApi) handleLog(ws *websocket.Conn, procName string, connector *pclo
 			}
 		case <-done:
 			log.Warn().Msg("Socket closed remotely")
-			close(logChan)
 			return
 		}
 
